@@ -1,6 +1,7 @@
 (* C06 — every key and value is dropped or handed back exactly once (abstract ledger; the ptr::read
    paths of the owning iterators are Layer B). *)
 Require Import LruV.A.LedgerA.
+Require Import LruV.A.MonitorsSound LruV.A.MonitorsA LruV.A.PanicProps.
 
 (* one step, any operation, any state, any oracle: the multiset of tokens held before plus those the
    operation brings in equals the multiset held after plus dropped plus handed back (plus what a
@@ -45,6 +46,14 @@ Proof.
   eapply Run_cons; [exact I|vm_compute; reflexivity|]. apply Run_nil.
 Qed.
 
+(* the token ledger evaluated on the implementation after every step holds for every step of the model whose tokens were
+   distinct before it: what is held, dropped and handed back afterwards is duplicate-free and is exactly what was there
+   before (a sub-multiset when the step forgets a Drain) *)
+Theorem C06_monitor_sound : forall E VS, 0 < E -> VS <= E -> forall s p o s' out evs, Inv E s -> wf_op E s p -> toks_ok s p ->
+  stepA E VS fixed s p o = Some (s', out, evs) -> c06_mon s p out (e_dropped evs) s' = true.
+Proof. exact c06_mon_sound. Qed.
+
 Print Assumptions C06_step.
 Print Assumptions C06_exactly_once.
 Print Assumptions C06_no_leak_without_forget.
+Print Assumptions C06_monitor_sound.
